@@ -139,6 +139,9 @@ def run_check(prop: str, tier: str) -> int:
             scns += list(gen_enum(1, mf, 3, 1))
     scns += gen_random(seed, 600 if q else 8000, long=False) + gen_random(seed, 60 if q else 800, long=True)
     scns += _sim(seed + 1, 100 if q else 1500, sw)
+    for kf in common.known_findings():
+        if kf["property"] == prop and kf.get("regression_scenario"):
+            scns.append(dict(kf["regression_scenario"], family="ledger:" + kf["id"]))
     traces = mbt.drive("engine.pm_check", "_drive_one", scns)
     verdicts = mbt.observe(traces, "ObsPm", shards=8 if q else 16)
     viol_n = 0
